@@ -176,6 +176,12 @@ def finalize_history(out: Outcome, init, ops):
             if k == "mid-offcentre":
                 n_mid_off += 1
     out.labels.add(f"calls={min(len(ops), 5)}{'+' if len(ops) >= 5 else ''}")
+    T0, cp0 = init["T"], init.get("cp") or {}
+    idle = [i for i in range(1, len(T0)) if cp0 and all(v[i] == 0.0 for v in cp0.values())]
+    if idle:
+        out.labels.add("table-with-idle-interval")
+        if any(T0[i] + 1e-3 < t < T0[i - 1] - 1e-3 for op in ops for t in op["T"] for i in idle):
+            out.labels.add("insert-into-idle-interval")
     if any(len(op["T"]) == 0 for op in ops):
         out.labels.add("empty-request")
     out.nontrivial = len(ops) >= 2 and n_mid_off >= 1
@@ -210,9 +216,16 @@ def initial_table(draw):
     keys = draw(st.lists(st.sampled_from(ikeys), min_size=1, max_size=6, unique=True))
     cols = {k: draw(st.lists(val, min_size=n, max_size=n)) for k in keys}
     cp = {}
+    every_pair = draw(st.integers(0, 2)) == 0  # a third of the tables carry all heat-capacity columns, as pipeline tables do
     for cpk, dhk in pairs:
-        if draw(st.booleans()):
+        if every_pair or draw(st.booleans()):
             cp[cpk] = [0.0] + draw(st.lists(st.integers(0, 400).map(lambda k: k / 8), min_size=n - 1, max_size=n - 1))
+    # idle intervals: no stream crosses them (every populated heat-capacity column is exactly 0 there) while other curves
+    # (utility, balanced, heat-pump profiles) may still slope across them
+    if cp and draw(st.booleans()):
+        for i in draw(st.lists(st.integers(1, n - 1), min_size=1, max_size=3, unique=True)):
+            for k in cp:
+                cp[k][i] = 0.0
     return {"T": T, "cols": cols, "cp": cp}
 
 
